@@ -614,7 +614,7 @@ func init() {
 		p := p
 		Scenarios[fmt.Sprintf("c11.reads-between-setters.p%d", p)] = func() (choice.Scenario, func() any) {
 			base := *c02Claims()[map[int]int{1: 2, 2: 0}[p]]
-			reads := []string{"none", "EncodeClaimsToCBOR", "EncodeClaimsToJSON", "json.Marshal", "MarshalCBOR method", "MarshalJSON method", "Validate", "getters", "ValidateAndEncodeClaimsToJSON"}
+			reads := []string{"none", "EncodeClaimsToCBOR", "EncodeClaimsToJSON", "json.Marshal", "MarshalCBOR method", "MarshalJSON method", "Validate", "getters", "ValidateAndEncodeClaimsToJSON", "fmt.Sprintf"}
 			return func(c *choice.Ctx) {
 				inst := c.Choose("container", 3)
 				filled := c.Choose("filled", 2) == 1
@@ -652,30 +652,45 @@ func init() {
 					case *psatoken.P2Claims:
 						t.SwComponents = cont
 					}
-					switch reads[read] {
-					case "EncodeClaimsToCBOR":
-						_, _ = psatoken.EncodeClaimsToCBOR(cl)
-					case "EncodeClaimsToJSON":
-						_, _ = psatoken.EncodeClaimsToJSON(cl)
-					case "json.Marshal":
-						_, _ = json.Marshal(cl)
-					case "MarshalCBOR method":
-						if m, ok := cl.(interface{ MarshalCBOR() ([]byte, error) }); ok {
-							_, _ = m.MarshalCBOR()
+					doRead := func() {
+						switch reads[read] {
+						case "EncodeClaimsToCBOR":
+							_, _ = psatoken.EncodeClaimsToCBOR(cl)
+						case "EncodeClaimsToJSON":
+							_, _ = psatoken.EncodeClaimsToJSON(cl)
+						case "json.Marshal":
+							_, _ = json.Marshal(cl)
+						case "MarshalCBOR method":
+							if m, ok := cl.(interface{ MarshalCBOR() ([]byte, error) }); ok {
+								_, _ = m.MarshalCBOR()
+							}
+						case "MarshalJSON method":
+							if m, ok := cl.(json.Marshaler); ok {
+								_, _ = m.MarshalJSON()
+							}
+						case "Validate":
+							_ = cl.Validate()
+						case "getters":
+							_ = getterVector(cl)
+						case "ValidateAndEncodeClaimsToJSON":
+							_, _ = psatoken.ValidateAndEncodeClaimsToJSON(cl)
+						case "fmt.Sprintf":
+							_ = fmt.Sprintf("%v|%+v|%s|%v|%s", cl, cl, cl, cont, cont)
+							switch t := cl.(type) {
+							case *psatoken.P1Claims:
+								_ = fmt.Sprintf("%v|%s", t.SwComponents, t.SwComponents)
+							case *psatoken.P2Claims:
+								_ = fmt.Sprintf("%v|%s", t.SwComponents, t.SwComponents)
+							}
 						}
-					case "MarshalJSON method":
-						if m, ok := cl.(json.Marshaler); ok {
-							_, _ = m.MarshalJSON()
-						}
-					case "Validate":
-						_ = cl.Validate()
-					case "getters":
-						_ = getterVector(cl)
-					case "ValidateAndEncodeClaimsToJSON":
-						_, _ = psatoken.ValidateAndEncodeClaimsToJSON(cl)
 					}
-					e1 := cl.SetSoftwareComponents([]psatoken.ISwComponent{mkEntry(okComp(2, 48)), mkEntry(fullComp(3, 64))})
+					doRead()
+					// (measurement types in descending order: an order nothing would produce by sorting)
+					c1, c2, c3 := okComp(2, 48), fullComp(3, 64), okComp(4, 32)
+					c1.MType, c2.MType, c3.MType = sp("SPE"), sp("NSPE"), sp("ARoT")
+					e1 := cl.SetSoftwareComponents([]psatoken.ISwComponent{mkEntry(c1), mkEntry(c2), mkEntry(c3)})
 					e2 := cl.SetClientID(77)
+					doRead() // the same read once more, between the setters and the observation
 					return fmt.Sprintf("SetSoftwareComponents=%s SetClientID=%s validate=%s getters=%s enc=%s", resErr(e1), resErr(e2), resErr(cl.Validate()), getterVector(cl), encObs(cl))
 				}
 				c11stats.StateStr(fmt.Sprint("reads-between", p, inst, filled, read))
